@@ -1,19 +1,34 @@
 #!/usr/bin/env python3
-"""Print a markdown table: per property, families and plan counts per tier (from recipes.py) and the
-measured numbers of the evidence files currently in /verif/evidence."""
-import json, os, sys
+"""Print a markdown table: per property, families and plan counts per tier (from recipes.py), the
+measured numbers of the evidence files currently in /verif/evidence (quick tier), and - when a log of
+`tools/multiseed.py thorough <seed>` is given as argument - the measured size and wall time of the
+thorough tier.  usage: summary_table.py [thorough-log]"""
+import json, os, re, sys
 HERE = os.path.dirname(os.path.dirname(os.path.abspath(__file__)))
 sys.path.insert(0, os.path.join(HERE, "tools"))
 from recipes import RECIPES
-print("| id | quick: families x plans | thorough: families x plans | last evidence: tier, runs, distinct non-trivial, distinct interleavings, simulated days, wall s, runs/h |")
-print("|---|---|---|---|")
+thorough = {}
+if len(sys.argv) > 1 and os.path.exists(sys.argv[1]):
+    for line in open(sys.argv[1]):
+        m = re.search(r"seed=\d+ (C\d\d) exit=(\d+) \d+s (C\d\d) thorough: (\d+) runs, (\d+) violations, (\d+) known-finding hits, ([\d.]+)s", line)
+        if m:
+            thorough[m.group(1)] = (int(m.group(2)), int(m.group(4)), int(m.group(5)), int(m.group(6)), float(m.group(7)))
+print("| id | quick: families x plans | measured (quick): runs, distinct non-trivial, distinct interleavings, simulated days, wall s | thorough: families x plans | measured (thorough): runs, wall s, exit | fully enumerated grids |")
+print("|---|---|---|---|---|---|")
 ids = sorted(set(list(RECIPES.keys()) + ["C16", "C17"]))
 for p in ids:
-    q = ", ".join("%s x %s" % (f, ("all" if n >= 100000 else n)) for f, n in RECIPES.get(p, {}).get("quick", [])) or "see tools/tacd_driver.py"
-    t = ", ".join("%s x %s" % (f, ("all" if n >= 100000 else n)) for f, n in RECIPES.get(p, {}).get("thorough", [])) or "see tools/tacd_driver.py"
+    fmt = lambda lst: ", ".join("%s x %s" % (f, ("all" if n >= 100000 else n)) for f, n in lst)
+    q = fmt(RECIPES.get(p, {}).get("quick", [])) or "tools/tacd_driver.py"
+    t = fmt(RECIPES.get(p, {}).get("thorough", [])) or "tools/tacd_driver.py"
     ev = os.path.join(HERE, "evidence", p + ".json")
-    e = ""
+    e = g = ""
     if os.path.exists(ev):
         d = json.load(open(ev)); c = d["coverage"]
-        e = "%s, %d, %d, %s, %s, %.0f, %s" % (d["tier"], c["evaluations"], c["distinct_nontrivial"], c.get("distinct_interleavings", ""), c.get("simulated_days", ""), d["wall_s"], c.get("runs_per_hour", ""))
-    print("| %s | %s | %s | %s |" % (p, q, t, e))
+        e = "%d, %d, %s, %s, %.0f" % (c["evaluations"], c["distinct_nontrivial"], c.get("distinct_interleavings", ""), c.get("simulated_days", "-"), d["wall_s"])
+        gr = c.get("exhaustively_enumerated_families") or {}
+        g = ", ".join("%s (%d)" % (k, v) for k, v in sorted(gr.items())) or (c.get("exhaustive_part", "")[:90])
+    th = ""
+    if p in thorough:
+        x = thorough[p]
+        th = "%d, %.0f, %d" % (x[1], x[4], x[0])
+    print("| %s | %s | %s | %s | %s | %s |" % (p, q, e, t, th, g))
